@@ -138,12 +138,15 @@ func c14Check(c *fw.Ctx, s c14Spec, al c14Alpha) *fw.Violation {
 		argv = append(argv, "-r", e)
 	}
 	outPath := ""
+	stale := false
 	switch s.Out {
 	case c14OutDash:
 		argv = append(argv, "-o", "-")
 	case c14OutFile:
 		outPath = filepath.Join(dir, "out.json")
-		os.Remove(outPath)
+		// the file exists already and is longer than anything the run writes: -o must leave exactly the new bytes
+		os.WriteFile(outPath, []byte(strings.Repeat("stale content of an earlier run\n", 40)), 0o644)
+		stale = true
 		argv = append(argv, "-o", outPath)
 	case c14OutBad:
 		argv = append(argv, "-o", filepath.Join(dir, "no-such-dir", "out.json"))
@@ -260,7 +263,7 @@ func c14Check(c *fw.Ctx, s c14Spec, al c14Alpha) *fw.Violation {
 			if err != nil || string(b) != wantJSON {
 				return fail("-o FILE does not hold exactly the bytes -o - prints", map[string]any{"file": string(b), "want": wantJSON})
 			}
-		} else if err == nil && len(b) > 0 && !eitherExit {
+		} else if err == nil && len(b) > 0 && !eitherExit && !(stale && strings.HasPrefix(string(b), "stale content")) {
 			return fail("-o FILE was written although there is nothing to write", map[string]any{"file": string(b)})
 		}
 	}
